@@ -157,6 +157,26 @@ def oracle_built(case) -> list:
     return uniq
 
 
+def oracle_lattice(case) -> list:
+    """four integer lattice points handed over in a drawn array representation (int64 / int32 / float64 arrays, as
+    coordinates kept in fixed-point units or typed by hand are): degeneracy is decided EXACTLY on the integers, the
+    prescribed angle is the reference dihedral of the same points"""
+    _, v1, _, v2 = _funcs()
+    ints = [np.array(p, dtype=np.int64) for p in case["points"]]
+    b1, b2, b3 = ints[1] - ints[0], ints[2] - ints[1], ints[3] - ints[2]
+    n1, n2 = np.cross(b1, b2), np.cross(b2, b3)
+    case["_degenerate"] = not (n1.any() and n2.any())
+    if case["_degenerate"]:
+        return []
+    phi = ref_dihedral(*[p.astype(float) for p in ints])
+    dt = {"int64": np.int64, "int32": np.int32, "float64": np.float64}[case["dtype"]]
+    pts = [np.array(p, dtype=dt) for p in case["points"]]
+    out = []
+    for tag, f in (("v1", v1), ("v2", v2)):
+        out += judge(tag, f(*pts), phi)
+    return out
+
+
 # ---------------------------------------------------------------------------
 # corpus tier
 
@@ -314,9 +334,11 @@ def plan(tier, seed):
     specs = []
     if tier == "quick":
         specs += [{"kind": "built", "examples": 1200, "seed": seed * 1000 + k} for k in range(14)]
+        specs += [{"kind": "lattice", "examples": 1500, "seed": seed * 1000 + 700}]
         specs += [{"kind": "corpus", "files": [f]} for f in QUICK_FILES]
     else:
         specs += [{"kind": "built", "examples": 60000, "seed": seed * 1000 + k} for k in range(16)]
+        specs += [{"kind": "lattice", "examples": 40000, "seed": seed * 1000 + 700 + k} for k in range(4)]
         specs += [{"kind": "corpus", "files": [f]} for f in corpus_files()]
     return specs
 
@@ -360,6 +382,15 @@ def run_shard(spec) -> ShardResult:
         run_hypothesis(PROP_ID, _strategy(), oracle_built, seed=spec["seed"], max_examples=spec["examples"], result=res,
                        classify=classify)
         res.exhaustive = False
+    elif spec["kind"] == "lattice":
+        from hypothesis import strategies as st
+
+        pt = st.lists(st.integers(-6, 6), min_size=3, max_size=3)
+        strat = st.fixed_dictionaries({"points": st.lists(pt, min_size=4, max_size=4), "dtype": st.sampled_from(["int64", "int32", "float64"])})
+        run_hypothesis(PROP_ID, strat, oracle_lattice, seed=spec["seed"], max_examples=spec["examples"], result=res,
+                       classify=lambda c: (not c.get("_degenerate", True), ["lattice-" + c["dtype"]] + (["degenerate-skipped"] if c.get("_degenerate", True) else [])),
+                       to_json=lambda c: {k: v for k, v in c.items() if not k.startswith("_")})
+        res.exhaustive = False
     elif spec["kind"] == "corpus":
         for fn in spec["files"]:
             case = {"file": fn}
@@ -375,6 +406,8 @@ def run_shard(spec) -> ShardResult:
 
 
 def replay(case):
+    if "points" in case:
+        return oracle_lattice(dict(case))
     if "file" in case:
         return oracle_file(dict(case))
     return oracle_built(case)
